@@ -1,0 +1,91 @@
+//go:build verif
+
+package transport
+
+// VerifConnState is a snapshot of the admission counters of one connection,
+// read under the connection's own locks (verification only).
+type VerifConnState struct {
+	Dialing       bool // lazy conn: dial not finished yet
+	DialFailed    bool
+	LazyClosed    bool
+	LazyReserved  int // reservations held while dialing
+	LazyLimit     int
+	HasConn       bool // underlying TraditionalDnsConn present
+	Closed        bool // underlying conn closed
+	Reserved      int  // tdc.reservedQuery
+	Queued        int  // len(tdc.queue)
+	Limit         int  // tdc.maxCq
+	NetConn       NetConn
+	UnknownDnsCon bool // underlying DnsConn is not a *TraditionalDnsConn
+}
+
+// VerifCounters returns (reserved, queued, limit, closed) under queueMu.
+func (dc *TraditionalDnsConn) VerifCounters() (reserved, queued, limit int, closed bool) {
+	dc.queueMu.RLock()
+	defer dc.queueMu.RUnlock()
+	return dc.reservedQuery, len(dc.queue), dc.maxCq, dc.closed.Load()
+}
+
+// VerifNetConn returns the underlying NetConn.
+func (dc *TraditionalDnsConn) VerifNetConn() NetConn { return dc.c }
+
+func (lc *lazyDnsConn) verifState() VerifConnState {
+	lc.mu.Lock()
+	s := VerifConnState{
+		LazyClosed:   lc.closed,
+		LazyReserved: lc.reservedQuery,
+		LazyLimit:    lc.maxConcurrentQuery,
+	}
+	select {
+	case <-lc.dialFinished:
+	default:
+		s.Dialing = true
+	}
+	c, dialErr := lc.c, lc.dialErr
+	lc.mu.Unlock()
+	s.DialFailed = dialErr != nil
+	if c != nil {
+		s.HasConn = true
+		if dc, ok := c.(*TraditionalDnsConn); ok {
+			s.Reserved, s.Queued, s.Limit, s.Closed = dc.VerifCounters()
+			s.NetConn = dc.c
+		} else {
+			s.UnknownDnsCon = true
+		}
+	}
+	return s
+}
+
+// VerifSnapshot returns the state of every connection the transport tracks.
+func (t *PipelineTransport) VerifSnapshot() (closed bool, conns []VerifConnState) {
+	t.m.Lock()
+	closed = t.closed
+	lcs := make([]*lazyDnsConn, 0, len(t.conns))
+	for c := range t.conns {
+		lcs = append(lcs, c)
+	}
+	t.m.Unlock()
+	for _, lc := range lcs {
+		conns = append(conns, lc.verifState())
+	}
+	return closed, conns
+}
+
+// VerifSnapshot returns the number of tracked and idle connections and whether
+// the idle set is a subset of the tracked set.
+func (t *ReuseConnTransport) VerifSnapshot() (closed bool, conns, idle int, idleSubset bool, idleBusy int) {
+	t.m.Lock()
+	defer t.m.Unlock()
+	idleSubset = true
+	for c := range t.idleConns {
+		if _, ok := t.conns[c]; !ok {
+			idleSubset = false
+		}
+		c.m.Lock()
+		if c.waitingResp != nil {
+			idleBusy++
+		}
+		c.m.Unlock()
+	}
+	return t.closed, len(t.conns), len(t.idleConns), idleSubset, idleBusy
+}
